@@ -88,8 +88,8 @@ class Normalizer:
         if c is None:
             c = self._defs_cache = {}
         if id(fn) not in c:
-            c[id(fn)] = single_defs(fn)
-        return c[id(fn)]
+            c[id(fn)] = (fn, single_defs(fn))        # the node is kept alive with its entry, so its address cannot be re-used
+        return c[id(fn)][1]
 
     def accessor(self, name, call):
         """inline trivial accessors of self: property getters / zero-arg methods with a single return"""
